@@ -343,7 +343,7 @@ def run(ctx):
             c["probe"] = True
         if not cs:
             raise vlib.Inconclusive("no probe schedules for %s" % pp)
-        probes += cs if thorough else rng.sample(cs, min(len(cs), 10))
+        probes += rng.sample(cs, min(len(cs), 40 if thorough else 10))  # a refused probe costs a mutex-wait detection (~0.1 s)
     ctx.sample(probes[0])
     summ = None
     if thorough:
